@@ -187,3 +187,70 @@ pub fn panic_plan<T: Subj>(tier: Tier) -> Plan<T> {
         .with_aux(Aux::Exp, sets::exponents(bits, Tier::Quick))
         .with_typed_shifts()
 }
+
+/// C16 plans: the union of the boundary sets of every digit type of the width (what is a digit
+/// boundary for u8/u16/u32 digits is present inside a u64 digit), bounded in size.
+pub fn cross_plan<T: Subj>(tier: Tier, cap: usize) -> Plan<T> {
+    let bits = T::BITS;
+    let mut v: Vec<Vec<u8>> = Vec::new();
+    if bits <= 8 {
+        v = sets::full(8);
+    } else {
+        let mut per: Vec<Vec<Vec<u8>>> = Vec::new();
+        for w in [64u32, 32, 16, 8] {
+            if bits % w == 0 {
+                let n = (bits / w) as usize;
+                if n <= 4 || w == 64 || tier == Tier::Thorough {
+                    per.push(sets::structured(w, n, Tier::Quick));
+                } else {
+                    per.push(sets::structured_small(w, n, Tier::Quick));
+                }
+            }
+        }
+        // interleave so that truncation keeps every digit type's simplest values
+        let maxlen = per.iter().map(|p| p.len()).max().unwrap_or(0);
+        for i in 0..maxlen {
+            for p in &per {
+                if i < p.len() {
+                    v.push(p[i].clone());
+                }
+            }
+        }
+        v.extend(root_values(bits, T::SIGNED));
+    }
+    let mut v = sets::dedup(v);
+    v.truncate(cap);
+    let c: Vec<Vec<u8>> = v.iter().take(6).cloned().collect();
+    Plan::new("union of per-digit-type boundary sets", &v, &v, &c)
+        .with_aux(Aux::Shift, sets::shift_amounts(bits, T::DIGIT_BITS, Tier::Quick))
+        .with_aux(Aux::Exp, sets::exponents(bits, Tier::Quick))
+        .with_heavy_limit(16)
+}
+
+/// C17 plan: the C04 plan plus bnum-typed shift amounts below BITS, assign-sequence codes and the
+/// Sum / Product sequence codes (every sequence of length <= 4 over an 8-value alphabet)
+pub fn ops_plan<T: Subj>(tier: Tier) -> Plan<T> {
+    let bits = T::BITS as u64;
+    let mut amounts: Vec<u64> = vec![0, 1, 2, 7, 8, 9, bits / 2, bits - 2, bits - 1];
+    if T::BITS <= 64 {
+        amounts = (0..bits).collect();
+    }
+    amounts.retain(|a| *a < bits);
+    amounts.sort();
+    amounts.dedup();
+    let seqcodes: Vec<u64> = (0..14u64).flat_map(|a| (0..14u64).map(move |b| a * 16 + b)).collect();
+    let mut folds: Vec<u64> = Vec::new();
+    for len in 0..=4u64 {
+        for code in 0..(8u64.pow(len as u32)) {
+            folds.push((len << 12) | code);
+        }
+    }
+    let mut p = panic_plan::<T>(tier).with_aux(Aux::BitIdx, amounts).with_aux(Aux::Custom, seqcodes).with_aux(Aux::K(20), folds);
+    // the third register of the assign sequences: a handful of values
+    p.c = p.a.iter().take(6).cloned().collect();
+    if T::BITS == 8 {
+        // FULL^2 x 6 for the sequences would be 196 sequences x 65536 x 6: bound the second register
+        p.c = p.a.iter().step_by(51).cloned().collect();
+    }
+    p
+}
